@@ -5,7 +5,7 @@ PID = "C03"
 
 
 def run(rep):
-    H.run_h1(rep, PID, ["MC_C03_quick.cfg"], ["MC_C03_thorough.cfg", "MC_C03_thorough_b.cfg"], [],
+    H.run_h1(rep, PID, ["MC_C03_quick.cfg"], ["MC_C03_thorough.cfg", "MC_C03_thorough_b.cfg"], [H.reuse_family],
              dict(allow_bad=0.2, one_byte=0.15, budget=0.2, faults=True), n_random=(300, 5000), max_scripts=(1500, 20000))
 
 
